@@ -10,6 +10,7 @@ PROP = {
             "Sonic.Props.C06.C06_sync_async_agree",
             "Sonic.Props.C06.C06_segmentation_independent",
             "Sonic.Props.C06.C06_control_callback",
+            "Sonic.Props.C06.C06_frame_message_consistent",
             "Sonic.Lemmas.WsMsg.readNextFuel_frame",
             "Sonic.Lemmas.WsMsg.readNextFuel_drained",
             "Sonic.Lemmas.WsMsg.nextFrame_head",
@@ -18,11 +19,12 @@ PROP = {
             "Sonic.Lemmas.WsMsg.nm_parts",
             "Sonic.Lemmas.WsMsg.runMsgs_session",
             "Sonic.Lemmas.WsMsg.runFrames_frames",
+            "Sonic.Lemmas.WsMsg.assemble_session",
         ],
         "runs": [{
             "component": "wsmsg",
-            "quick": {"gen": [(2500, 5)], "enum": [(40,)]},
-            "thorough": {"gen": [(25000, 6)], "enum": [(300,)]},
+            "quick": {"gen": [(6000, 5)], "enum": [(40,)]},
+            "thorough": {"gen": [(60000, 6)], "enum": [(300,)]},
         }],
         "rule": "scripts = a session of a conforming server at message level (0-6 text/binary messages; payload sizes 0, 1, 125, 126, 127, "
                 "max-1, max, random, rarely 65535/65536/65537 with max in {65535, 65536, 70000, 524288}; max otherwise from "
@@ -70,7 +72,7 @@ PROP = {
                       "transport has nothing more; the frame API delivers exactly the frame list; the control callback receives exactly the "
                       "control frames, in order, with their payloads, each in the call of the message it was sent with; all four APIs and "
                       "all segmentations observe the same sequence (C06_delivery, C06_frame_api, C06_sync_async_agree, "
-                      "C06_segmentation_independent, C06_control_callback, C06_monitor_accepts). The composition with the C07 decoder is "
+                      "C06_segmentation_independent, C06_control_callback, C06_monitor_accepts); reassembling the frame API's deliveries per RFC 6455 5.4 gives the message API's deliveries (C06_frame_message_consistent). The composition with the C07 decoder is "
                       "proved (not assumed): readNextFuel_frame/readNextFuel_drained use C07's decode_frame/decode_needMore/decode_tooBig "
                       "and prefix monotonicity of the parser. Partial in these respects: the models are hand-written, so their agreement "
                       "with the Go source rests on the differential trace check (four readers per session compared line by line with the "
